@@ -1475,14 +1475,15 @@ CORPUS_SESSIONS = [
      "calls": [
          {"op": "full", "v": "solver/out.dat:copy", "i": 0, "deps": None, "extra": None},
          {"op": "dri", "v": "solver/bin/run.sh:ref", "stage": 0, "deps": {"$obj": "a.deps"}},
-         {"op": "full", "v": "solver/bin/run.sh:ref", "i": 0, "deps": {"$obj": "a.deps"}, "extra": None},
-         {"op": "full", "v": "solver/bin/run.sh:ref", "i": 0, "deps": {"$obj": "a.deps"}, "extra": []},
-         {"op": "expand1", "v": "solver/bin/run.sh:ref", "ctx": 0, "known": None, "deps": {"$obj": "a.deps"}, "tlf": None},
          {"op": "full", "v": "solver/out.dat:copy", "i": 0, "deps": None, "extra": None},
          {"op": "full", "v": "solver:ref", "i": 0, "deps": [], "extra": {"$obj": "b.tlf"}},
          {"op": "expand", "v": "solver/out.dat:copy", "ctx": 0, "known": {"$obj": "b.known"}, "tlf": {"$obj": "b.tlf"}, "force": False},
          {"op": "dri", "v": "solver/out.dat:copy", "stage": 0, "deps": None},
          {"op": "dref", "v": "solver/out.dat:copy", "i": 0},
+         {"op": "full", "v": "solver/bin/run.sh:ref", "i": 0, "deps": {"$obj": "a.deps"}, "extra": None},
+         {"op": "full", "v": "solver/bin/run.sh:ref", "i": 0, "deps": {"$obj": "a.deps"}, "extra": []},
+         {"op": "expand1", "v": "solver/bin/run.sh:ref", "ctx": 0, "known": None, "deps": {"$obj": "a.deps"}, "tlf": None},
+         {"op": "full", "v": "solver/out.dat:copy", "i": 0, "deps": None, "extra": None},
      ]},
 ]
 
